@@ -54,3 +54,37 @@ Theorem C01_unclearing_free_refuted :
   run bad_pair [Get ["text"%string]; Free; Free] init = inr (DoubleFree "text").
 Proof. vm_compute. reflexivity. Qed.
 Print Assumptions C01_unclearing_free_refuted.
+
+(** ---- appended by the Eng builder: the modelled session core (coq/Eng) ----
+    [Eng.Api.step] reports [ObsCrash e] from the first modelled call on that
+    reaches an undefined or throwing C++ operation ([Eng.Ctx.err]).  The full
+    totality statement is [TotalProofs.core_total_full] (NOT proved: the
+    unreachability of std::string::substr with pos > size and of the fuel bound
+    |input| + 1 of CalculateSegmentation for arbitrary histories).  Proved: *)
+From RimeV Require Eng.Api Eng.Ctx Eng.Engine Eng.Oracle Eng.Spec Eng.CommitProofs Eng.TotalProofs.
+
+(** for EVERY history of API operations with arbitrary arguments (keys with any
+    code/mask, indices up to SIZE_MAX, carets beyond the end, options, …), any
+    configuration with page_size >= 1, either editor and any translator whose
+    candidate lists are shorter than 2^31 - page_size, given the source fact
+    that Context::DeleteCandidate looks the candidate up first: no modelled call
+    dereferences a null candidate and none builds an invalid page range
+    (PARTIAL: two of the four kinds of undefined operation) *)
+Theorem C01_core_total_partial :
+  forall cfg translate, RimeV.Eng.TotalProofs.total_hyps cfg translate ->
+  forall ops, List.Forall RimeV.Eng.TotalProofs.no_null_no_bad_range_obs
+                          (snd (RimeV.Eng.Api.run cfg translate ops)).
+Proof. exact RimeV.Eng.TotalProofs.core_total_partial. Qed.
+Print Assumptions C01_core_total_partial.
+
+(** for every key sequence over the C05 editing alphabet (letters, BackSpace,
+    Delete, KP_Left, KP_Right, Home, End, Escape), both editors, ANY translator:
+    no undefined operation of any kind, CalculateSegmentation within its fuel *)
+Theorem C01_core_total_edit_keys :
+  forall fluid dlog translate keys,
+    List.Forall (fun k => RimeV.Eng.Spec.ekey_ok (RimeV.Eng.Oracle.synth_cfg fluid dlog) k = true) keys ->
+    List.forallb RimeV.Eng.CommitProofs.not_crash
+      (snd (RimeV.Eng.Api.run (RimeV.Eng.Oracle.synth_cfg fluid dlog) translate
+                              (List.map RimeV.Eng.Spec.op_of_ekey keys))) = true.
+Proof. exact RimeV.Eng.TotalProofs.core_total_edit. Qed.
+Print Assumptions C01_core_total_edit_keys.
